@@ -10,11 +10,13 @@ from harness.props import c01
 PID = 'C04'
 LEVEL = 'proof'
 RULE = ('gin-machine/refs: 2-4 probe configurables; bindings whose values nest @q, @q(), @s/q(), @s1/s2/q up to depth 3 '
-        'inside lists / tuples / dict values (acyclic by construction); ambient scope depth 0-2; every parameter '
+        'inside lists / tuples / dict values and as dict KEYS (2-3 keys referencing one configurable under different scopes, now and '
+        'then with the other evaluate flag or another configurable; acyclic by construction); ambient scope depth 0-2; every parameter '
         'overridden positionally / by keyword / not at all; 1-3 consecutive consumer calls; the probes MUTATE every '
         'container they receive; the store, queries and get_bindings are re-observed after each call. Independent '
         'predicate: the exact sequence of (configurable, scope) body executions predicted from the store snapshot by '
-        'the rules of the property text, and store equality before/after each call. '
+        'the rules of the property text, and store equality before/after each call; after a binding whose value holds a dict '
+        'literal with reference keys the store holds what the TEXT denotes (every written reference an entry of its own). '
         'non-trivial = a consumer call whose Gin-supplied bindings contain >= 2 evaluated references of which one is '
         'scoped, or a caller override of a parameter bound to an evaluated reference. '
         'ref-shapes (implementation only): @make() alone / in a list / in a dict inside a tuple, scoped or not, bound to '
@@ -27,7 +29,15 @@ RULE = ('gin-machine/refs: 2-4 probe configurables; bindings whose values nest @
         '/ set (the only unknown name, ghost, is bound in its own statements and / or referenced by a parameter the caller always '
         'supplies); per occurrence: a fresh result run under the written scope or else the ambient one (tag bound for that scope), '
         'an unevaluated reference is a callable that runs make under exactly the written scope whenever called; nothing else runs; '
-        'mutation of everything received leaves query_parameter and config_str unchanged.')
+        'mutation of everything received leaves query_parameter and config_str unchanged. '
+        'ref-dict-keys (implementation only): dict literals (top level or up to 3 containers deep) whose KEYS are pairwise different '
+        'references -- one configurable under 2-4 different scopes, evaluated / unevaluated, %macros (plain or reference-valued), '
+        '%constants (strings, tuples, enum members; short and full spellings), tuple keys holding a reference, a second configurable, '
+        'plain keys -- with such trees as values; three selector spellings, ambient scope depth 0-2, tags per scope, caller overrides; '
+        'per written occurrence (key or value): its own fresh result under the written scope or else the ambient one, macro / constant '
+        'value, or a callable that runs under exactly the written scope; as many entries as keys were written, in order; nothing else '
+        'runs; two calls with mutation of everything received; non-trivial = a live dict with >= 2 keys that reference one configurable '
+        'and differ only in scope.')
 TRUSTED_BASE = c01.TRUSTED_BASE
 ASSUMPTIONS = ['copy.deepcopy on plain containers is CPython; handles are compared by the configurable they denote']
 
@@ -64,6 +74,77 @@ def expected_runs(store, regs_by_sel, sel, scope, skip_params, depth=0):
   return out
 
 
+def refkey_dicts(v):
+  """the dict literals inside a written value that have a reference among their keys"""
+  if v[0] in ('l', 't'):
+    for x in v[1]:
+      yield from refkey_dicts(x)
+  elif v[0] == 'd':
+    if any(k[0] == 'ref' for k, _ in v[1]):
+      yield v
+    for k, x in v[1]:
+      yield from refkey_dicts(k)
+      yield from refkey_dicts(x)
+
+
+def written_value(v, sels):
+  """what a WRITTEN value denotes, from its text alone: every reference is the reference that was written -- its scopes, the one
+  registered configurable its selector names, its evaluate flag -- and a dict literal has one entry per distinct key that was
+  written (two references are the same key only if all three agree; dict literals with other keys than references and strings,
+  and %names, are left to the other predicates: None)."""
+  t = v[0]
+  if t == 'ref':
+    m = [x for x in sels if x == v[2]] or [x for x in sels if x.endswith('.' + v[2])]
+    if len(m) != 1:
+      raise LookupError(v[2])
+    return T('Ref', list(v[1]), m[0], bool(v[3]))
+  if t in ('l', 't'):
+    return T('L' if t == 'l' else 'T', *[written_value(x, sels) for x in v[1]])
+  if t == 'd':
+    items = []
+    for k, x in v[1]:
+      if k[0] not in ('ref', 's'):
+        raise LookupError(k)
+      ck, cx = written_value(k, sels), written_value(x, sels)
+      same = [it for it in items if C.strict_eq(it[0], ck)]
+      if same:
+        same[0][1] = cx            # {k: 1, k: 2}: one entry, the later value
+      else:
+        items.append([ck, cx])
+    return T('D', *items)
+  if t in ('n', 'b', 'i', 's'):
+    return c01.canon_plain(v)
+  raise LookupError(t)
+
+
+def written_fails(m, case):
+  """after a binding whose value holds a dict literal with references among its keys, the store holds what was written: every
+  written reference is there (and so will be called / delivered), under its own scope, with its own value"""
+  fails = []
+  sels = [c['sel'] for c in case['regs']]
+  for t in m.trace:
+    if t['kind'] not in ('bind', 'pbind') or t.get('exc') is not None or not any(refkey_dicts(t['op'][2])):
+      continue
+    op = t['op']
+    parts = op[1].split('/')
+    if '.' not in parts[-1]:
+      continue
+    scope = '/'.join(parts[:-1])
+    sel, param = parts[-1].rsplit('.', 1)
+    try:
+      want = written_value(op[2], sels)
+    except LookupError:
+      continue
+    cands = [(q, dict((p, x) for p, x in pd)) for s, q, pd in t['after']['config'] if s == scope]
+    cands = [c for c in cands if c[0] == sel] or [c for c in cands if c[0].endswith('.' + sel)]
+    got = [c[1][param] for c in cands if param in c[1]]
+    if got and not any(C.strict_eq(g, want) for g in got):
+      fails.append(('written-reference-not-bound', 'after %s = %s the binding holds %r; what was written is %r: a reference '
+                    'written as a dict key (however deeply nested) is a reference of its own, to be called under its own scope' %
+                    (op[1], ginm.val_text(op[2]), got[0], want)))
+  return fails[:1]
+
+
 class RefEngine(c01.CallEngine):
   name = 'gin-refs'
 
@@ -81,7 +162,18 @@ class RefEngine(c01.CallEngine):
         ['pbind', 'f.b', ['l', [['ref', ['s1'], 'g', True], ['d', [[['s', 'x'], ['t', [['ref', [], 'k', False], ['ref', ['s1', 's2'], 'k', True]]]]]]]]],
         ['pbind', 's1/g.a', ['ref', [], 'k', True]],
         ['with', 's2', [['call', 'm.f', [], []], ['call', 'm.f', [], []]]],
-        ['query', 'f.b'], ['getbindings', 'm.f', False, True], ['dumpconfig'], ['dumpcalls'], ['dumpoper']]}]
+        ['query', 'f.b'], ['getbindings', 'm.f', False, True], ['dumpconfig'], ['dumpcalls'], ['dumpoper']]},
+            # references as dict KEYS: the same configurable under different scopes, at the top and three containers deep
+            {'regs': regs, 'ops': [
+                ['pbind', 's1/g.a', ['s', 'x']],
+                ['pbind', 'f.a', ['d', [[['ref', ['s1'], 'g', True], ['i', 1]], [['ref', ['s2'], 'g', True], ['i', 2]]]]],
+                ['pbind', 'f.b', ['l', [['t', [['d', [[['s', 'deep'], ['d', [
+                    [['ref', ['s2'], 'k', True], ['s', 'x']], [['ref', ['s1'], 'k', True], ['s', 'y']],
+                    [['ref', [], 'k', True], ['s', 'z']], [['ref', ['s1'], 'k', False], ['ref', ['s3'], 'g', True]],
+                    [['ref', ['s2'], 'k', False], ['i', 0]]]]]]]]]]]],
+                ['call', 'm.f', [], []], ['with', 's3', [['call', 'm.f', [], []], ['call', 'm.f', [], [['a', ['i', 5]]]]]],
+                ['query', 'f.a'], ['query', 'f.b'], ['getbindings', 'm.f', False, True], ['dumpconfig'], ['dumpcalls'],
+                ['dumpoper']]}]
 
   def gen_value(self, rng, regs, targets=None, depth=2):
     r = rng.random()
@@ -96,6 +188,17 @@ class RefEngine(c01.CallEngine):
       return ['l', [self.gen_value(rng, regs, targets, depth - 1) for _ in range(rng.randint(1, 3))]]
     if r < 0.87:
       return ['t', [self.gen_value(rng, regs, targets, depth - 1) for _ in range(rng.randint(1, 3))]]
+    if targets and rng.random() < 0.45:
+      # dict KEYS that are references: to one configurable under different scopes (now and then one of them with the other
+      # evaluate flag, or to another configurable); each is a key of its own and is called / delivered like any other
+      t = rng.choice(targets)
+      ev = rng.random() < 0.7
+      scs = rng.sample([[], ['s1'], ['s2'], ['s3'], ['s1', 's2'], ['s2', 's1'], ['s3', 's3']], rng.randint(2, 3))
+      keys = [['ref', sc, rng.choice(ginm.spellings(t if rng.random() < 0.85 else rng.choice(targets), regs)),
+               ev if rng.random() < 0.85 else not ev] for sc in scs]
+      if rng.random() < 0.3:
+        keys.insert(rng.randrange(len(keys) + 1), ['s', 'k0'])
+      return ['d', [[k, self.gen_value(rng, regs, targets, depth - 1)] for k in keys]]
     return ['d', [[['s', 'k%d' % i], self.gen_value(rng, regs, targets, depth - 1)] for i in range(rng.randint(1, 2))]]
 
   def gen(self, rng, tier):
@@ -144,6 +247,24 @@ class RefEngine(c01.CallEngine):
 
   def gen_arg(self, rng):
     return ginm.gen_plain(rng, 0)
+
+  def impl(self, case):
+    m = ginm.Machine()
+    obs = m.run(case)
+    regs_by_sel = {c['sel']: c for c in case['regs']}
+    fails, nontrivial, tags = [], False, []
+    for ctx in m.calls:
+      own = m.log[ctx['log_end'] - 1] if ctx['log_end'] > ctx['log_start'] else None
+      if ctx['sel'] in regs_by_sel:
+        fails += self.check(ctx, regs_by_sel, own, m)
+        nontrivial = nontrivial or self.nontrivial(ctx, regs_by_sel)
+      tags.append('depth%d' % len(ctx['scope']))
+      tags.append('err:' + ctx['error'].split(':')[0] if 'error' in ctx else 'ok')
+    written = written_fails(m, case)
+    if any(True for o in ginm.flatten_ops(case['ops']) if o[0] in ('bind', 'pbind') for _ in refkey_dicts(o[2])):
+      tags.append('ref-keys')
+    fails = written + m.readback_fails() + m.constant_fails() + fails
+    return {'obs': obs, 'fails': fails[:3], 'nontrivial': nontrivial, 'tags': tags}
 
   def check(self, ctx, regs_by_sel, own, m):
     fails = []
@@ -619,4 +740,428 @@ class RefParseEngine(Engine):
                      'depth%d' % max([0] + [len(rs.split('/')) for _, rs in live if rs])]}
 
 
-ENGINES = [RefEngine(), RefShapesEngine(), RefParseEngine()]
+class RefKeysEngine(Engine):
+  """References written as dict KEYS (the two engines above write them as list / tuple items and dict values only).  A dict
+  literal, at the top of a binding or up to three containers deep, whose keys are references to ONE configurable that differ
+  in nothing but their scope (`{@a/make(): 1, @b/make(): 2, @make(): 3}`), evaluated or not, %macros and %constants (which are
+  scoped references to gin.macro / gin.constant: `{%M0: 1, %M1: 2}`, `{%Color.RED: 'r', %Color.BLUE: 'b'}`), the same
+  wrapped in tuple keys (`{(@a/make(), 1): .., (@b/make(), 1): ..}`), mixed with references to a second configurable and plain
+  keys; the values are again such trees.  The keys written in one literal are pairwise different references (scope,
+  configurable or evaluate flag differ) and deliver pairwise different objects, so the literal denotes a dict with exactly that
+  many entries, in the written order.
+  From the property text ("however deeply the reference is nested inside lists, tuples or dicts"): when the consumer is called
+  without that parameter, every evaluated reference that was written -- key or value -- is delivered as its own fresh result of
+  the configurable it names, run during this call under exactly the written scope or else the scope active at the consuming
+  call (so with the tag bound for that scope); a %macro delivers the macro's value (a reference in it runs under the macro's
+  own scope), a %constant the constant; every unevaluated reference is delivered as a callable that has not run and that,
+  whenever called, runs its configurable once under exactly the written scope; nothing else runs; parameters the caller
+  supplies arrive unchanged and none of their references run; scribbling on everything received changes neither the next
+  call nor query_parameter nor config_str.  Implementation only (the model covers `@` keys through gin-refs; its input
+  language has no enum constants, tuple-wrapped reference keys or macro values that are references)."""
+  name = 'ref-dict-keys'
+  model = False
+  KEY_SCOPES = ['', 'a', 'b', 'a/b', 'b/a', 's1', 'a/a']
+  TARGETS = ['make', 'other']
+  PREFIXES = ['', 'refmod.', 'pkg.refmod.']
+  # macro name -> the node its value is written as
+  MACROS = {'M0': ['p', 'mv0'], 'M1': ['p', 'mv1'], 'M2': ['p', 5], 'MR': ['e', 'a', 'make'], 'MU': ['e', '', 'make']}
+  # written spellings of the constants -> full name
+  CONSTANTS = {'C0': 'lib.C0', 'lib.C0': 'lib.C0', 'C1': 'pkg.lib.C1', 'pkg.lib.C1': 'pkg.lib.C1', 'Color.RED': 'pkg.colors.Color.RED',
+               'pkg.colors.Color.BLUE': 'pkg.colors.Color.BLUE', 'colors.Color.GREEN': 'pkg.colors.Color.GREEN'}
+  PLAIN_KEYS = ['k0', 'k1', 7]
+
+  def budget(self, tier):
+    return 250 if tier == 'quick' else 6000
+
+  def corpus(self):
+    def e(sc, t='make'):
+      return ['e', sc, t]
+
+    def h(sc, t='make'):
+      return ['h', sc, t]
+
+    def p(x):
+      return ['p', x]
+    base = {'prefix': '', 'params': ['a', 'b', 'c'], 'active': ['outer'], 'npos': 0, 'kw': [], 'tags': ['a', 'b']}
+    return [
+        # the same configurable under two / three scopes as keys, at the top and three containers deep
+        dict(base, binds=[['a', ['d', [[e('a'), p(1)], [e('b'), p(2)]]]],
+                          ['b', ['l', [['t', [['d', [[p('deep'), ['d', [[e('b'), p('x')], [e('a'), p('y')], [e(''), p('z')]]]]]]]]]]]]),
+        # macros and constants are scoped references to one configurable each
+        dict(base, active=[], tags=[''], binds=[['a', ['d', [[['m', 'M0'], p(1)], [['m', 'M1'], e('a')], [['m', 'MR'], p(3)]]]],
+                                                ['c', ['d', [[['c', 'Color.RED'], p('r')], [['c', 'pkg.colors.Color.BLUE'], p('b')],
+                                                             [['c', 'C0'], ['l', [e('b/a')]]]]]]]),
+        # unevaluated references and tuple-wrapped keys; one bound parameter is supplied by the caller
+        dict(base, prefix='refmod.', active=['s1', 'b'], npos=1, tags=['a/b', 's1'],
+             binds=[['a', ['d', [[e('a'), p(1)], [e('b'), p(2)]]]],
+                    ['b', ['d', [[h('a'), p(1)], [h('b'), e('a/a', 'other')], [h(''), p(3)], [e('a'), h('a')]]]],
+                    ['c', ['t', [['d', [[['t', [e('a'), p(1)]], p('x')], [['t', [e('b'), p(1)]], p('y')], [['t', [e('a', 'other'), p(1)]], p('z')]]]]]]]),
+    ]
+
+  # -- generation
+  def gen_keys(self, rng):
+    n = rng.randint(2, 4)
+    fam = rng.random()
+    refs = [[k, sc, t] for k in 'eh' for sc in self.KEY_SCOPES for t in self.TARGETS]
+    consts = {}
+    for sp, full in sorted(self.CONSTANTS.items()):
+      consts.setdefault(full, []).append(sp)
+    consts = [['c', rng.choice(sps)] for _, sps in sorted(consts.items())]       # one spelling of each constant
+    if fam < 0.5:
+      # references to ONE configurable that differ only in their scope (sometimes one with the other evaluate flag)
+      t, kind = rng.choice(self.TARGETS), 'e' if rng.random() < 0.75 else 'h'
+      keys = [[kind, sc, t] for sc in rng.sample(self.KEY_SCOPES, n)]
+      if rng.random() < 0.3:
+        keys.append(['h' if kind == 'e' else 'e', keys[0][1], t])
+    elif fam < 0.62:
+      keys = [['m', m] for m in rng.sample(sorted(self.MACROS), n)]
+    elif fam < 0.74:
+      keys = rng.sample(consts, n)
+    else:
+      keys = rng.sample(refs + [['m', m] for m in sorted(self.MACROS)] + consts + [['p', x] for x in self.PLAIN_KEYS], n)
+    rng.shuffle(keys)
+    # a key may be a tuple holding the reference
+    return [k if rng.random() < 0.8 else ['t', [k] + ([['p', 1]] if rng.random() < 0.5 else [])] for k in keys]
+
+  def gen_leaf(self, rng):
+    r = rng.random()
+    if r < 0.45:
+      return ['e', rng.choice(self.KEY_SCOPES), rng.choice(self.TARGETS)]
+    if r < 0.6:
+      return ['h', rng.choice(self.KEY_SCOPES), rng.choice(self.TARGETS)]
+    if r < 0.7:
+      return ['m', rng.choice(sorted(self.MACROS))]
+    if r < 0.8:
+      return ['c', rng.choice(sorted(self.CONSTANTS))]
+    return ['p', rng.choice(['x', 0, None, True])]
+
+  def gen_tree(self, rng, depth):
+    r = rng.random()
+    if depth <= 0 or r < 0.3:
+      return self.gen_leaf(rng)
+    if r < 0.42:
+      return ['l', [self.gen_tree(rng, depth - 1) for _ in range(rng.randint(1, 3))]]
+    if r < 0.52:
+      return ['t', [self.gen_tree(rng, depth - 1) for _ in range(rng.randint(1, 2))]]
+    keys = self.gen_keys(rng) if rng.random() < 0.85 else [['p', 'k%d' % i] for i in range(rng.randint(1, 2))]
+    return ['d', [[k, self.gen_tree(rng, depth - 1)] for k in keys]]
+
+  def gen(self, rng, tier):
+    params = list(rng.choice([['a', 'b', 'c'], ['a', 'b'], ['x']]))
+    npos = rng.choice([0, 0, 0, 1, len(params)])
+    binds = []
+    for p in params:
+      if rng.random() < 0.85:
+        binds.append([p, self.gen_tree(rng, 3) if rng.random() < 0.5 else
+                      ['d', [[k, self.gen_tree(rng, 2)] for k in self.gen_keys(rng)]]])
+    return {'prefix': rng.choice(self.PREFIXES), 'params': params,
+            'active': [rng.choice(['s1', 's2', 'a', 'b']) for _ in range(rng.choice([0, 1, 1, 2]))], 'npos': npos,
+            'kw': [p for p in params[npos:] if rng.random() < 0.2],
+            'tags': sorted(set(rng.choice(['', 'a', 'b', 'a/b', 'b/a', 's1', 's1/a', 'M0', 'MU']) for _ in range(rng.randint(0, 3)))),
+            'binds': binds}
+
+  # -- the written keys of every dict literal are pairwise different (what the generator guarantees; shrinking must keep it)
+  @classmethod
+  def wellformed(cls, node):
+    if node[0] in ('l', 't'):
+      return all(cls.wellformed(x) for x in node[1])
+    if node[0] == 'd':
+      keys = [repr(cls.key_id(k)) for k, _ in node[1]]
+      return len(set(keys)) == len(keys) and all(cls.wellformed(k) and cls.wellformed(x) for k, x in node[1])
+    return True
+
+  @classmethod
+  def key_id(cls, k):
+    if k[0] == 'c':
+      return ['c', cls.CONSTANTS[k[1]]]
+    if k[0] == 't':
+      return ['t', [cls.key_id(x) for x in k[1]]]
+    return k
+
+  @classmethod
+  def smaller(cls, node, is_key=False):
+    t = node[0]
+    if t in ('l', 't'):
+      for i, x in enumerate(node[1]):
+        if not is_key or x[0] != 'p':
+          yield x
+        if len(node[1]) > 1:
+          yield [t, node[1][:i] + node[1][i + 1:]]
+        for y in cls.smaller(x, is_key):
+          yield [t, node[1][:i] + [y] + node[1][i + 1:]]
+    elif t == 'd':
+      items = node[1]
+      for i, (k, x) in enumerate(items):
+        yield x
+        if len(items) > 1:
+          yield ['d', items[:i] + items[i + 1:]]
+      for i, (k, x) in enumerate(items):
+        for y in cls.smaller(x):
+          yield ['d', items[:i] + [[k, y]] + items[i + 1:]]
+        for y in cls.smaller(k, True):
+          yield ['d', items[:i] + [[y, x]] + items[i + 1:]]
+    elif t != 'p' and not is_key:
+      yield ['p', 0]
+
+  def shrink(self, case):
+    def but(**kw):
+      c = dict(case)
+      c.update(kw)
+      return c
+    binds = case['binds']
+    for i in range(len(binds)):
+      yield but(binds=binds[:i] + binds[i + 1:])
+    for i, (p, tree) in enumerate(binds):
+      for y in self.smaller(tree):
+        if self.wellformed(y):
+          yield but(binds=binds[:i] + [[p, y]] + binds[i + 1:])
+    for i in range(len(case['tags'])):
+      yield but(tags=case['tags'][:i] + case['tags'][i + 1:])
+    if case['active']:
+      yield but(active=case['active'][1:])
+    if case['kw']:
+      yield but(kw=case['kw'][1:])
+    if case['npos']:
+      yield but(npos=case['npos'] - 1)
+    if case['prefix']:
+      yield but(prefix='')
+
+  @classmethod
+  def render(cls, node, prefix):
+    t = node[0]
+    if t in ('e', 'h'):
+      return '@%s%s%s%s' % (node[1] + '/' if node[1] else '', prefix, node[2], '()' if t == 'e' else '')
+    if t in ('m', 'c'):
+      return '%' + node[1]
+    if t == 'p':
+      return repr(node[1])
+    if t == 'l':
+      return '[%s]' % ', '.join(cls.render(x, prefix) for x in node[1])
+    if t == 't':
+      return '(%s,)' % ', '.join(cls.render(x, prefix) for x in node[1])
+    return '{%s}' % ', '.join('%s: %s' % (cls.render(k, prefix), cls.render(x, prefix)) for k, x in node[1])
+
+  @classmethod
+  def scope_families(cls, node):
+    """sizes of the groups of keys of one dict literal that reference one configurable and differ only in scope"""
+    if node[0] in ('l', 't'):
+      for x in node[1]:
+        yield from cls.scope_families(x)
+    elif node[0] == 'd':
+      groups = {}
+      for k, x in node[1]:
+        while k[0] == 't':
+          k = k[1][0]
+        if k[0] in ('e', 'h'):
+          groups.setdefault((k[0], k[2]), set()).add(k[1])
+        elif k[0] in ('m', 'c'):
+          groups.setdefault(k[0], set()).add(k[1])
+        yield from cls.scope_families(x)
+      for g, scs in groups.items():
+        if len(scs) >= 2:
+          yield (g if isinstance(g, str) else g[0], len(scs))
+
+  def impl(self, case):
+    import enum
+    gin = C.fresh_gin()
+    runs = []
+
+    class Res(object):
+      def __init__(self, fn, scope, tag):
+        self.fn, self.scope, self.tag, self.marks = fn, scope, tag, []
+
+      def __repr__(self):
+        return 'Res(%s under scope %r, tag=%r)' % (self.fn, self.scope, self.tag)
+
+    def make(tag='untagged'):
+      r = Res('make', gin.current_scope_str(), tag)
+      runs.append(r)
+      return r
+
+    def other(tag='untagged'):
+      r = Res('other', gin.current_scope_str(), tag)
+      runs.append(r)
+      return r
+    cfgs = {'make': gin.configurable('make', module='pkg.refmod')(make),
+            'other': gin.configurable('other', module='pkg.refmod')(other)}
+
+    class Color(enum.Enum):
+      RED = 1
+      BLUE = 2
+      GREEN = 3
+    gin.constants_from_enum(Color, module='pkg.colors')
+    constvals = {'lib.C0': 'cv0', 'pkg.lib.C1': ('cv1', 1), 'pkg.colors.Color.RED': Color.RED, 'pkg.colors.Color.BLUE': Color.BLUE,
+                 'pkg.colors.Color.GREEN': Color.GREEN}
+    gin.constant('lib.C0', constvals['lib.C0'])
+    gin.constant('pkg.lib.C1', constvals['pkg.lib.C1'])
+    constants = self.CONSTANTS
+    params = case['params']
+    ns = {}
+    exec('def consumer(%s):\n  return dict(%s)\n' % (', '.join('%s="unset"' % p for p in params),      # pylint: disable=exec-used
+                                                    ', '.join('%s=%s' % (p, p) for p in params)), ns)
+    call = gin.configurable('consumer', module='pkg.usermod')(ns['consumer'])
+    prefix = case['prefix']
+
+    def want_tag(fn, scope):
+      if fn != 'make':
+        return 'untagged'
+      parts = scope.split('/') if scope else []
+      for n in range(len(parts), -1, -1):       # the most specific enclosing scope that binds make.tag
+        if '/'.join(parts[:n]) in case['tags']:
+          return 'T:' + '/'.join(parts[:n])
+      return 'untagged'
+
+    lines = ['%smake.tag = %r' % (t + '/' if t else '', 'T:' + t) for t in case['tags']]
+    lines += ['%s = %s' % (m, self.render(v, prefix)) for m, v in sorted(self.MACROS.items())]
+    lines += ['consumer.%s = %s' % (p, self.render(tree, prefix)) for p, tree in case['binds']]
+    text = '\n'.join(lines) + '\n'
+    what = 'text %r' % text
+    if not all(self.wellformed(tree) for _, tree in case['binds']):
+      return {'obs': T('Done'), 'fails': [], 'nontrivial': False, 'tags': ['not-wellformed']}
+    try:
+      gin.parse_config(text)
+    except Exception as e:  # pylint: disable=broad-except
+      return {'obs': T('Done'), 'nontrivial': False, 'tags': ['parse-raised'],
+              'fails': [('parse-of-known-references-raised', '%s: every name is registered and every key can be hashed, yet parsing '
+                         'raised %s: %s' % (what, type(e).__name__, str(e).splitlines()[0][:200]))]}
+
+    def snapshot():
+      return (gin.config_str(), [repr(gin.query_parameter('consumer.' + p)) for p, _ in case['binds']])
+    before = snapshot()
+    args = ['pos:%d' % i for i in range(case['npos'])]
+    kwargs = {p: 'kw:' + p for p in case['kw']}
+    supplied = set(params[:case['npos']]) | set(kwargs)
+    ambient = '/'.join(case['active'])
+    what += ' consumer called with args=%r kwargs=%r under scope %r' % (args, kwargs, ambient)
+    fails = []
+
+    def match(node, d, amb, path, results, handles):
+      """delivery shape; collects the delivered results / handles with the configurable and scope they were written with"""
+      t = node[0]
+      if t == 'e':
+        if not isinstance(d, Res):
+          return '%s: the evaluated reference %s was delivered as %r' % (path, self.render(node, prefix), d)
+        results.append((d, node[2], node[1] or amb, path))
+      elif t == 'h':
+        if isinstance(d, Res) or not callable(d):
+          return '%s: the unevaluated reference %s was delivered as %r' % (path, self.render(node, prefix), d)
+        handles.append((d, node[2], node[1], path))
+      elif t == 'm':
+        # %M is @M/gin.macro(): it delivers the macro's value; a reference in that value runs under the macro's scope
+        return match(self.MACROS[node[1]], d, node[1], path + '<%' + node[1] + '>', results, handles)
+      elif t == 'c':
+        want = constvals[constants[node[1]]]
+        if not (d is want or (not isinstance(want, enum.Enum) and type(d) is type(want) and d == want)):
+          return '%s: the constant %%%s (%r) was delivered as %r' % (path, node[1], want, d)
+      elif t == 'p':
+        if d != node[1] or type(d) is not type(node[1]):
+          return '%s: %r was delivered as %r' % (path, node[1], d)
+      elif t in ('l', 't'):
+        if type(d) is not (list if t == 'l' else tuple) or len(d) != len(node[1]):
+          return '%s: %s was delivered as %r' % (path, self.render(node, prefix), d)
+        for i, (n, x) in enumerate(zip(node[1], d)):
+          m = match(n, x, amb, '%s[%d]' % (path, i), results, handles)
+          if m:
+            return m
+      else:
+        if type(d) is not dict or len(d) != len(node[1]):
+          return '%s: the dict %s, written with %d different keys, was delivered as %r' % (
+              path, self.render(node, prefix), len(node[1]), d)
+        for (kn, xn), (dk, dx) in zip(node[1], list(d.items())):
+          here = '%s{%s}' % (path, self.render(kn, prefix))
+          m = match(kn, dk, amb, here + '<key>', results, handles) or match(xn, dx, amb, here, results, handles)
+          if m:
+            return m
+      return None
+
+    def scribble(d):
+      if isinstance(d, Res):
+        d.marks.append('mutated')
+      elif isinstance(d, (list, tuple)):
+        for x in d:
+          scribble(x)
+        if isinstance(d, list):
+          d.append('mutated')
+          d[0] = 'mutated'
+      elif isinstance(d, dict):
+        for k, x in list(d.items()):
+          scribble(k)
+          scribble(x)
+        d.clear()
+        d['mutated'] = True
+
+    all_results = []
+    for nth in (1, 2):                 # twice: a fresh result each time the consumer is called
+      del runs[:]
+      try:
+        with gin.config_scope(list(case['active']) or None):
+          got = call(*args, **kwargs)
+      except Exception as e:  # pylint: disable=broad-except
+        fails.append(('consumer-call-raised', '%s (call %d) raised %s: %s' % (
+            what, nth, type(e).__name__, str(e).splitlines()[0][:200])))
+        break
+      during = list(runs)
+      results, handles = [], []
+      for i, p in enumerate(params):
+        if p in supplied:
+          want = 'pos:%d' % i if i < case['npos'] else 'kw:' + p
+          if got[p] != want:
+            fails.append(('caller-value-not-delivered', '%s: %r received %r' % (what, p, got[p])))
+      for p, tree in case['binds']:
+        if p in supplied:
+          continue
+        m = match(tree, got[p], ambient, p, results, handles)
+        if m:
+          fails.append(('wrong-delivery', '%s (call %d): %s' % (what, nth, m)))
+      if fails:
+        break
+      # every evaluated occurrence: its own result, of a run made during THIS call, under the written scope or else the ambient
+      if len(set(id(r) for r, _, _, _ in results)) != len(results) or any(r is o for r, _, _, _ in results for o in all_results):
+        fails.append(('result-not-fresh', '%s (call %d): two evaluated references received the same result object: %r' %
+                      (what, nth, [(path, r) for r, _, _, path in results])))
+      for r, fn, ws, path in results:
+        if (r.fn, r.scope, r.tag) != (fn, ws, want_tag(fn, ws)) or r.marks:
+          fails.append(('reference-run-in-wrong-scope', '%s (call %d): %s received %r%s; the property requires a fresh result of '
+                        '%s run under scope %r (tag %r)' % (what, nth, path, r, ' already mutated' if r.marks else '', fn, ws,
+                                                           want_tag(fn, ws))))
+      if sorted(id(r) for r in during) != sorted(id(r) for r, _, _, _ in results):
+        kind = 'overridden-reference-still-called' if len(during) > len(results) and any(p in supplied for p, _ in case['binds']) \
+            else 'reference-evaluation-sequence'
+        fails.append((kind, '%s (call %d): the bodies ran as %r, but the evaluated references written for the parameters the caller '
+                      'did not supply (%r supplied) are %r' % (what, nth, during, sorted(supplied), [path for _, _, _, path in results])))
+      all_results += [r for r, _, _, _ in results]
+      # every unevaluated occurrence: a callable which, whenever called, runs its configurable once under exactly the written scope
+      for h, fn, rs, path in handles:
+        if not rs and h is not cfgs[fn]:
+          fails.append(('wrong-delivery', '%s (call %d): %s is the unscoped @%s%s and received %r, not the configurable itself' %
+                        (what, nth, path, prefix, fn, h)))
+          continue
+        for later in ('', 'late/r'):
+          del runs[:]
+          try:
+            with gin.config_scope(later or None):
+              r = h()
+          except Exception as e:  # pylint: disable=broad-except
+            fails.append(('delivered-configurable-raised', '%s (call %d): calling what %s received under scope %r raised %s: %s' %
+                          (what, nth, path, later, type(e).__name__, str(e).splitlines()[0][:200])))
+            break
+          ws = rs or later
+          if not isinstance(r, Res) or len(runs) != 1 or runs[0] is not r or (r.fn, r.scope, r.tag) != (fn, ws, want_tag(fn, ws)):
+            fails.append(('reference-run-in-wrong-scope', '%s (call %d): calling what %s received under scope %r returned %r '
+                          '(runs %r); the property requires one run of %s under %r (tag %r)' %
+                          (what, nth, path, later, r, runs, fn, ws, want_tag(fn, ws))))
+      # the consumer scribbles on everything it received
+      for p, _ in case['binds']:
+        if p not in supplied:
+          scribble(got[p])
+      after = snapshot()
+      if after != before:
+        fails.append(('store-changed-by-call', '%s: config_str / query_parameter changed from %r to %r' % (what, before, after)))
+      if fails:
+        break
+    fams = [f for p, tree in case['binds'] if p not in supplied for f in self.scope_families(tree)]
+    return {'obs': T('Done'), 'fails': fails[:3], 'nontrivial': bool(fams),
+            'tags': sorted(set('keys:' + g for g, _ in fams)) + (['supplied'] if any(p in supplied for p, _ in case['binds']) else [])}
+
+
+ENGINES = [RefEngine(), RefShapesEngine(), RefParseEngine(), RefKeysEngine()]
